@@ -12,6 +12,13 @@ connections on `StringTransport`s:
 A history is a list of driver tokens (`c`, `d<c>`, `q<c>,<n>,<flags>`, `r<c>,<n>`, `o<c>,<n>`,
 `l<c>,<n>`; c = k of the unique name ":1.k", n = index into NAMES).
 
+Extension 2026-09-30 (seam with C14): `u<c>,<dest>,<t>` - connection c sends a message of type t (1 call,
+2 return, 3 error, 4 signal) addressed to <dest> through the real bus, and the harness records on which
+transports it arrives; `g<c>,<dest>` - GetNameOwner(<dest>) for any name.  <dest> = `k<j>` the unique name
+":1.j", `n<i>` NAMES[i], `f<i>` FOREIGN[i] (starts with ':' but is not of the form the bus hands out).
+The model's answer is `routerLookup` on its name table at that point of the history; the oracle's is the
+owner of the destination in the reference table at that moment (nobody when there is none).
+
 S3: every step's events + live tables are compared with the Lean code model (`drv_c13`).
 S4: an implementation-only oracle: the invariants of the live tables after every step, and reply
 codes / NameAcquired deliveries / lookups against the reference name table `Ref`, which is
@@ -22,12 +29,14 @@ import itertools
 import json
 
 STREAMS = ['names-exhaustive-bytes', 'names-exhaustive-direct', 'names-two-name-handover',
-           'names-random-bytes', 'spec-vs-reference', 'client-flags']
+           'names-random-bytes', 'spec-vs-reference', 'client-flags', 'router-lookup-bytes']
 THEOREMS = ['inv_reachable', 'inv_step', 'at_most_one_owner_and_alive', 'step_never_raises',
             'request_semantics', 'reply_states_relation', 'release_semantics', 'disconnect_semantics',
             'signals_track_ownership', 'at_most_one_believer',
             'queries_agree', 'refines_spec', 'run_refines_spec', 'spec_exec_sound', 'codes_match_spec',
-            'client_flags_roundtrip', 'client_success_iff_owner']
+            'client_flags_roundtrip', 'client_success_iff_owner',
+            'router_lookup_is_spec_owner', 'lookup_follows_history', 'lookup_at_that_moment',
+            'lookups_change_nothing', 'queries_agree_any_name', 'prefix_router_finds_dead_owner']
 TRUSTED_BASE = [
     'Python dict (insertion order, in-place overwrite, del), list.remove / insert / append / `in`, '
     'object identity of connections (`is`) - mirrored by hand in Bus/Names.lean, validated by the streams',
@@ -42,8 +51,10 @@ ASSUMPTIONS = [
     'raise (C12/C14).  Exercised: connections get match rules through real AddMatch calls before they disconnect',
     '"connected" in the theorems is membership in Bus.clients (connectionLost -> clientDisconnected is the only way '
     'out); the oracle instead uses the set of connections the harness itself has open',
-    'names are valid well-known bus names (validation at the top of dbus_RequestName is C18); '
-    'GetNameOwner of unique names is outside the model',
+    'names are valid well-known bus names (validation at the top of dbus_RequestName is C18); destinations of '
+    'messages / GetNameOwner are non-empty valid bus names other than org.freedesktop.DBus (the empty destination and '
+    'the bus\'s own name are decided before the lookup: C14)',
+    'of an addressed message only WHO receives it is modelled and judged here (content, sender field, order: C14)',
     'what becomes of a replaced owner is left open by the property (txdbus drops it; the DBus '
     'specification requeues it second): both accepted by spec and oracle',
     'not demanded by the oracle (compared with the model only): NameOwnerChanged broadcasts, NameLost deliveries, '
@@ -61,10 +72,28 @@ RULE = ('a case is one history prefix (node of the enumeration tree) or one whol
 NAMES = ['com.example.alpha', 'org.b.c2', 'Com.Example.Alpha', 'com.example']
 RULES = ["type='signal',interface='com.example.Nothing',member='Nope'",
          "type='signal',interface='org.freedesktop.DBus',member='NameOwnerChanged'"]
+# names that start with ':' but are not of the form ':1.<decimal without leading zero>' the bus hands out
+FOREIGN = [':1.01', ':2.1', ':1.1a', ':01.1', ':1.1.1', ':x.y']
 BUS = 'org.freedesktop.DBus'
 PATH = '/org/freedesktop/DBus'
 ERRP = 'org.freedesktop.DBus.Error.'
 PYEXC = 'org.txdbus.PythonException.'
+
+
+def dest_str(d):
+    """The destination string of a destination token (k<j> / n<i> / f<i>)."""
+    if d[0] == 'k':
+        return ':1.%d' % int(d[1:])
+    if d[0] == 'n':
+        return NAMES[int(d[1:])]
+    return FOREIGN[int(d[1:]) % len(FOREIGN)]
+
+
+def tok_args(tok):
+    """Integer arguments of a token; for `u` / `g` tokens only the sender (the destination is a word)."""
+    if tok[0] in 'ug':
+        return [int(tok[1:].split(',')[0])]
+    return [int(x) for x in tok[1:].split(',')] if tok != 'c' else []
 
 
 # ----------------------------------------------------------------------------- the real bus
@@ -208,6 +237,38 @@ class World:
                     out.append('M%d:%d' % (owner, mt))
         return out
 
+    def addressed(self, dest, t):
+        """A message of type t with destination `dest` as a peer would write it."""
+        msg = self.message
+        if t == 2:
+            return msg.MethodReturnMessage(77, body=[5], destination=dest, signature='u')
+        if t == 3:
+            return msg.ErrorMessage('com.example.Error.Nope', 78, destination=dest, signature='s', body=['no'])
+        if t == 4:
+            return msg.SignalMessage('/com/example/Obj', 'Poked', 'com.example.Iface', destination=dest,
+                                     signature='s', body=['p'])
+        return msg.MethodCallMessage('/com/example/Obj', 'Frob', interface='com.example.Iface',
+                                     destination=dest, signature='s', body=['x'])
+
+    def receivers(self, sent, dest):
+        """On which transports did the addressed message arrive (in the order written)?  A transport keeps the
+        number of the connection it was made for, connected or not.  Name signals that the send caused (there
+        should be none) are listed too.  -> ['D1'] / ['D-'] / ['D1.2'] (+ 'A..' / 'L..') or 'ERR:x'."""
+        got, extra = [], []
+        for owner, payload in self.raw:
+            if owner is None:
+                extra.append('B?')
+                continue
+            for m in self.split(payload):
+                if (m._messageType == sent._messageType and m.serial == sent.serial
+                        and getattr(m, 'destination', None) == dest):
+                    got.append(owner)
+                elif m._messageType == 4 and m.interface == BUS and m.member in ('NameAcquired', 'NameLost'):
+                    extra.append('%s%d:%s' % (m.member[4], owner, self.nidx(m.body[0])))
+                elif m._messageType == 3 and m.error_name.startswith(PYEXC):
+                    return 'ERR:' + exc_kind(m.error_name[len(PYEXC):])
+        return ['D' + ('.'.join(str(k) for k in got) if got else '-')] + extra
+
     def step(self, tok):
         """Run one operation token; returns canonical event list, or 'ERR:<kind>'."""
         self.raw = []
@@ -216,6 +277,29 @@ class World:
             if kind == 'c':
                 self.connect()
                 return []
+            if kind in 'ug':
+                parts = tok[1:].split(',')
+                c, dest = int(parts[0]), dest_str(parts[1])
+                p = self.protos[c]
+                if kind == 'u':
+                    m = self.addressed(dest, int(parts[2]) if len(parts) > 2 else 1)
+                    if self.mode == 'bytes':
+                        p.dataReceived(m.rawMessage)
+                    else:
+                        self.bus.sendMessage(m)
+                    return self.receivers(m, dest)
+                if self.mode == 'bytes':
+                    m = self.call_msg('GetNameOwner', 's', [dest])
+                    p.dataReceived(m.rawMessage)
+                    return self.events(m.serial, 'o')
+                try:
+                    v = self.bus.dbus_GetNameOwner(dest)
+                    ev = 'o%d:%s' % (c, v[3:] if v.startswith(':1.') else '?' + v)
+                except self.busmod.DError as e:
+                    en = e.errorName
+                    ev = 'e%d:%s' % (c, en[len(ERRP):] if en.startswith(ERRP) else en)
+                sigs = self.events(None, 'o')
+                return sigs if isinstance(sigs, str) else sigs + [ev]
             args = [int(x) for x in tok[1:].split(',')]
             c = args[0]
             p = self.protos[c]
@@ -377,6 +461,16 @@ class Ref:
     def queue(self, n):
         return [e[0] for e in self.q.get(n, [])]
 
+    def owner_of(self, d):
+        """Who owns destination token d at this moment: a unique name is owned by the connection it was given to
+        while that is connected, a well-known name by the first of its queue, any other name by nobody."""
+        if d[0] == 'k':
+            return int(d[1:]) if int(d[1:]) in self.conn else None
+        if d[0] == 'n':
+            q = self.q.get(int(d[1:]), [])
+            return q[0][0] if q else None
+        return None
+
     def step(self, tok):
         """-> dict(code=, told=[(kind, to, n)], alt=None|queue-with-old-owner-kept, answer=)"""
         kind = tok[0]
@@ -384,6 +478,9 @@ class Ref:
         if kind == 'c':
             self.conn.add(self.next)
             self.next += 1
+            return out
+        if kind in 'ug':         # an addressed message / a question: no effect on names; who is the owner now?
+            out['answer'] = self.owner_of(tok[1:].split(',')[1])
             return out
         a = [int(x) for x in tok[1:].split(',')]
         c = a[0]
@@ -449,11 +546,15 @@ class Ref:
     # the format of the driver's `s` command
     def spec_field(self, tok, names):
         kind = tok[0]
-        a = [int(x) for x in tok[1:].split(',')] if kind != 'c' else []
-        if kind != 'c' and kind not in 'olx' and a[0] not in self.conn:
+        a = tok_args(tok)
+        if kind != 'c' and kind not in 'olxug' and a[0] not in self.conn:
             return 'REFUSED'
         r = self.step(tok)
         ev = ['%s%d:%d' % t for t in r['told']]
+        if kind == 'u':
+            ev.append('D-' if r['answer'] is None else 'D%d' % r['answer'])
+        if kind == 'g':
+            ev.append('e%d:NameHasNoOwner' % a[0] if r['answer'] is None else 'o%d:%d' % (a[0], r['answer']))
         if r['code'] is not None:
             ev.append('r%d:%d' % (a[0], r['code']))
         if kind == 'o':
@@ -487,7 +588,7 @@ def judge(world, ref, tok, events, names=(0, 1)):
     The live dicts `bus.busNames` / `proto.busNames` are NOT read here (they are compared with the model, S3).
     Returns None, UNJUDGED (stop judging this history) or (key, what, observed, expected)."""
     kind = tok[0]
-    a = [int(x) for x in tok[1:].split(',')] if kind != 'c' else []
+    a = tok_args(tok)
     if isinstance(events, str):
         ref.step(tok)
         return ('name-op-raises', 'the bus raises %s while handling %s' % (events, tok), events, 'a reply')
@@ -579,7 +680,7 @@ def judge(world, ref, tok, events, names=(0, 1)):
         if kind in 'rd' and lq[:1] != rq[:1]:
             return ('wrong-successor', 'after the owner left, the owner is not the longest-waiting queued client',
                     {'queue': lq}, {'queue': rq})
-        if kind == 'x':
+        if kind in 'xug':
             return ('other-traffic-changes-names', 'a bus call that is not a name operation changed who owns / waits',
                     {'queue': lq}, {'queue': rq})
         return ('queue-mismatch', 'owner / listing of name %d differ from the reference table after %s' % (n, tok),
@@ -591,6 +692,46 @@ def judge(world, ref, tok, events, names=(0, 1)):
     missing = [w for w in want if w not in have]
     if missing:
         return ('new-owner-not-told', 'the new owner is not sent NameAcquired', have, want)
+    # 5. an addressed message is received by the connection owning the destination at that moment, by it only,
+    #    once; when nobody owns the destination nobody receives it
+    if kind == 'u':
+        dest = dest_str(tok[1:].split(',')[1])
+        got = []
+        for e in events:
+            if e[0] == 'D':
+                got = [int(x) for x in e[1:].split('.') if x.isdigit()]
+        owner = exp['answer']
+        want = [] if owner is None else [owner]
+        if got != want:
+            obs = {'destination': dest, 'received-by': got, 'connected': sorted(ref.conn)}
+            wexp = {'received-by': want}
+            dead = [k for k in got if k not in ref.conn]
+            if dead:
+                return ('unicast-to-disconnected-client', 'a message addressed to %s is written to the transport of '
+                        'a connection that has disconnected' % dest, obs, wexp)
+            if owner is None:
+                return ('unicast-delivered-without-owner', 'a message addressed to %s, which nobody owns at that '
+                        'moment, is delivered' % dest, obs, wexp)
+            if owner not in got:
+                return ('unicast-not-delivered-to-owner', 'a message addressed to %s does not reach the connection '
+                        'owning the name at that moment' % dest, obs, wexp)
+            if [k for k in got if k != owner]:
+                return ('unicast-reaches-non-owner', 'a message addressed to %s also reaches a connection that does '
+                        'not own the name' % dest, obs, wexp)
+            return ('unicast-delivered-twice', 'a message addressed to %s reaches its owner more than once' % dest,
+                    obs, wexp)
+    if kind == 'g':
+        ans = None
+        for e in events:
+            if e[0] == 'e' and e.endswith(':NameHasNoOwner'):
+                ans = ('none',)
+            elif e[0] == 'o':
+                v = e.split(':')[1]
+                ans = int(v) if v.isdigit() else v
+        want_ans = ('none',) if exp['answer'] is None else exp['answer']
+        if ans != want_ans:
+            return ('owner-lookup-disagrees', '%s (GetNameOwner of %s) answers %r' % (tok, dest_str(tok[1:].split(',')[1]), ans),
+                    ans, want_ans)
     # 4. the answer of an explicit lookup / listing sent through the bus
     if kind in 'ol':
         ans = None
@@ -609,7 +750,9 @@ def judge(world, ref, tok, events, names=(0, 1)):
 
 
 def names_of(hist):
-    ns = sorted({int(t[1:].split(',')[1]) for t in hist if t[0] in 'qrol'})
+    ns = {int(t[1:].split(',')[1]) for t in hist if t[0] in 'qrol'}
+    ns |= {int(t[1:].split(',')[1][1:]) for t in hist if t[0] in 'ug' and t[1:].split(',')[1][0] == 'n'}
+    ns = sorted(ns)
     return tuple(ns) if ns else (0,)
 
 
@@ -867,6 +1010,123 @@ def two_name_family():
     return out
 
 
+def with_lookups(rng, hist, names, density=0.5, every=None):
+    """Interleave a name history with addressed messages and GetNameOwner questions.  After a step (with
+    probability `density`) one to three lookups by live connections; destinations: the well-known names of the
+    history, every unique name handed out so far - connected or gone -, the next one (not handed out yet),
+    the sender itself, and colon names of another form.  `every`: instead, after EVERY step one message to
+    each of these destinations (bounded-exhaustive use)."""
+    out, live, nxt = [], [], 1
+    for tok in hist:
+        out.append(tok)
+        if tok == 'c':
+            live.append(nxt)
+            nxt += 1
+        elif tok[0] == 'd':
+            c = int(tok[1:])
+            if c in live:
+                live.remove(c)
+        if not live:
+            continue
+        if every is not None:
+            dests = ['n%d' % n for n in names] + ['k%d' % j for j in range(1, nxt + 1)] + ['f%d' % (len(out) % len(FOREIGN))]
+            for i, d in enumerate(dests):
+                c = live[(len(out) + i) % len(live)]
+                out.append('u%d,%s,%d' % (c, d, 1 + (len(out) + i) % 4))
+            if every:
+                out.append('g%d,%s' % (live[0], dests[len(out) % len(dests)]))
+            continue
+        if rng.random() >= density:
+            continue
+        for _ in range(rng.choice((1, 1, 2, 3))):
+            c = rng.choice(live)
+            r = rng.random()
+            if r < 0.45:
+                d = 'n%d' % rng.choice(names)
+            elif r < 0.80:
+                d = 'k%d' % rng.randrange(1, nxt + 1)
+            elif r < 0.90:
+                d = 'k%d' % c
+            else:
+                d = 'f%d' % rng.randrange(len(FOREIGN))
+            if rng.random() < 0.25:
+                out.append('g%d,%s' % (c, d))
+            else:
+                out.append('u%d,%s,%d' % (c, d, rng.randrange(1, 5)))
+    return out
+
+
+def lookup_histories(ctx):
+    """The histories of stream `router-lookup-bytes`: (a) the two-name handover family with a message to every
+    destination after every step (a third of it in the quick tier), (b) short scripted histories around the
+    moments at which the owner changes (replacement, release, disconnect of the owner, of a waiter, reconnect
+    under a new unique name), (c) random name histories with random lookups."""
+    out = []
+    fam = two_name_family()
+    step = 1 if ctx.tier == 'thorough' or ctx.widen else 3
+    off = ctx.rng.randrange(step)
+    for h in fam[off::step]:
+        out.append(('family', with_lookups(ctx.rng, h, [0, 1], every=True)))
+    scripted = [
+        ['c', 'c', 'q1,0,1', 'q2,0,0', 'q2,0,2', 'r2,0', 'q1,0,0', 'd1', 'c', 'q3,0,0', 'q2,0,4', 'd3', 'd2'],
+        ['c', 'c', 'c', 'q1,0,0', 'q2,0,0', 'q3,0,0', 'd2', 'r1,0', 'd3', 'q1,0,0', 'd1'],
+        ['c', 'c', 'q1,2,1', 'q2,0,3', 'q2,2,3', 'q1,3,0', 'q2,3,0', 'd1', 'd2', 'c', 'q3,0,0'],
+    ]
+    for h in scripted:
+        out.append(('scripted', with_lookups(ctx.rng, h, sorted({int(t.split(',')[1]) for t in h if t[0] in 'qr'}),
+                                             every=True)))
+    n = ctx.scale(quick=120, thorough=2000)
+    for _ in range(n):
+        base = random_history(ctx.rng, ctx.rng.choice((8, 15, 25, 40)))
+        names = sorted({int(t[1:].split(',')[1]) for t in base if t[0] in 'qrol'}) or [0]
+        out.append(('random', with_lookups(ctx.rng, base, names, density=ctx.rng.choice((0.3, 0.6, 0.9)))))
+    return out
+
+
+def run_lookup_stream(ctx):
+    stream = 'router-lookup-bytes'
+    hists = lookup_histories(ctx)
+    out = ctx.model(['h ' + ' '.join(h) for _, h in hists])
+    sout = ctx.model(['s ' + ' '.join(h) for _, h in hists])
+    for i, (shape, h) in enumerate(hists):
+        fields, verdict = check_history(ctx, stream, 'bytes', h, out[i] if out else None)
+        ctx.case(stream, sample=h, nontrivial=any(t[0] == 'q' for t in h))
+        ctx.stat('lookup-shape:' + shape)
+        live, nxt = set(), 1
+        for tok, f in zip(h, fields):
+            if tok == 'c':
+                live.add(nxt)
+                nxt += 1
+            elif tok[0] == 'd':
+                live.discard(int(tok[1:]))
+            if tok[0] not in 'ug':
+                continue
+            d = tok[1:].split(',')[1]
+            cls = {'n': 'well-known', 'f': 'foreign'}.get(d[0])
+            if cls is None:
+                j = int(d[1:])
+                cls = ('unique-self' if j == int(tok[1:].split(',')[0]) else 'unique-live' if j in live
+                       else 'unique-gone' if j < nxt else 'unique-never')
+            ev = f.split('#')[0]
+            res = 'error' if ev.startswith('ERR') or ev == '!' else \
+                  'nobody' if ev in ('D-',) or 'NameHasNoOwner' in ev else 'found'
+            ctx.stat('lookup-%s:%s:%s' % ('send' if tok[0] == 'u' else 'ask', cls, res))
+            if tok[0] == 'u':
+                ctx.stat('lookup-msgtype:' + (tok.split(',')[2] if tok.count(',') > 1 else '1'))
+        # the oracle's reference (owner_of) against the Lean specification (Spec.State.ownerOf)
+        ref = Ref()
+        names = sorted(names_of(h)) if any(t[0] in 'qrolug' for t in h) else []
+        names = sorted({int(t[1:].split(',')[1]) for t in h if t[0] in 'qrol'} |
+                       {int(t[1:].split(',')[1][1:]) for t in h if t[0] in 'ug' and t[1:].split(',')[1][0] == 'n'})
+        mine = [ref.spec_field(tok, names) for tok in h]
+        ctx.case('spec-vs-reference', sample=h)
+        if sout is not None and sout[i] != ' | '.join(mine):
+            mf = sout[i].split(' | ')
+            k = next((j for j, (x, y) in enumerate(zip(mf, mine)) if x != y), 0)
+            ctx.disagree('spec-vs-reference', {'history': h}, mf[k] if k < len(mf) else None,
+                         mine[k] if k < len(mine) else None, detail='step %d' % k)
+
+
 def check_history(ctx, stream, mode, hist, model_line):
     fields, verdict = run_fresh(mode, hist)
     ctx.impl_trace()
@@ -1030,6 +1290,9 @@ def run(ctx):
             k = next((j for j, (x, y) in enumerate(zip(mf, mine)) if x != y), 0)
             ctx.disagree('spec-vs-reference', {'history': h}, mf[k] if k < len(mf) else None,
                          mine[k] if k < len(mine) else None, detail='step %d' % k)
+
+    # the router's reading of the table: addressed messages and GetNameOwner of any name between name operations
+    run_lookup_stream(ctx)
 
     # client side
     rows = client_rows()
